@@ -1,11 +1,9 @@
 #!/bin/sh
-# tools/sweep.sh "<seeds>" "<ids>" — run the quick checks for several seeds (false-alarm hunt); prints one line per run
+# tools/sweep.sh "<seeds>" "<ids>" [parallel] — run the quick checks for several seeds (false-alarm hunt); one line per run
+cd "$(dirname "$0")/.." || exit 2
 seeds=${1:-"1 2 3 4 5"}
 ids=${2:-$(python3 -c "import json;print(' '.join(c['property_id'] for c in json.load(open('MANIFEST.json'))['checks']))")}
+par=${3:-3}
 ./setup.sh >/dev/null 2>&1
-for s in $seeds; do
-  for p in $ids; do
-    r=$(VERIF_SEED=$s ./check $p 2>/dev/null | tail -1)
-    echo "seed=$s $r"
-  done
-done
+for s in $seeds; do for p in $ids; do echo "$s $p"; done; done | \
+  xargs -P "$par" -L 1 sh -c 'r=$(VERIF_SEED=$0 ./check $1 2>/dev/null | grep -v "^KNOWN-FINDING" | tail -1); echo "seed=$0 $r"'
